@@ -181,6 +181,10 @@ func main() {
 		json.Unmarshal(b, &rewriteReport)
 	}
 
+	if ts, _ := rewriteReport["clock_tick_sites"].([]interface{}); len(ts) == 0 {
+		trouble("the rewriter found no loop in the interpreter packages to attach the simulated clock to; nothing could be decided")
+	}
+
 	// 2. worker binary (and the driver for C20); a private go.mod lets
 	// --repo point the harness at a scratch copy of the tree
 	modfile := filepath.Join(tmpDir, "go.mod")
@@ -598,7 +602,7 @@ func superviseWorker(worker string, args, env []string, curPath string, deadline
 			if ee, ok := err.(*exec.ExitError); ok {
 				c = ee.ExitCode()
 			}
-			return "died", tail(eb.String(), 6000), c
+			return "died", headTail(eb.String(), 6000), c
 		case <-tick.C:
 			b, _ := os.ReadFile(curPath)
 			if s := string(b); s != last {
@@ -618,6 +622,13 @@ func superviseWorker(worker string, args, env []string, curPath string, deadline
 	}
 }
 
+func headTail(s string, n int) string {
+	if len(s) > 2*n {
+		return s[:n] + "\n...\n" + s[len(s)-n:]
+	}
+	return s
+}
+
 func tail(s string, n int) string {
 	if len(s) > n {
 		return s[len(s)-n:]
@@ -626,16 +637,29 @@ func tail(s string, n int) string {
 }
 
 func headline(stderr string) string {
+	head := "no headline"
 	for _, l := range strings.Split(stderr, "\n") {
 		l = strings.TrimSpace(l)
-		if strings.HasPrefix(l, "fatal error:") || strings.HasPrefix(l, "panic:") || strings.HasPrefix(l, "runtime:") {
-			if len(l) > 120 {
-				l = l[:120]
-			}
-			return l
+		if strings.HasPrefix(l, "fatal error:") || strings.HasPrefix(l, "panic:") {
+			head = l
+			break
 		}
 	}
-	return "no headline"
+	if len(head) > 100 {
+		head = head[:100]
+	}
+	// name the library function the dying goroutine was in, so that two
+	// different crashes do not share a signature
+	for _, l := range strings.Split(stderr, "\n") {
+		l = strings.TrimSpace(l)
+		if strings.HasPrefix(l, "github.com/skx/evalfilter/v2") && !strings.Contains(l, "/verifsim.") {
+			if i := strings.LastIndex(l, "("); i > 0 {
+				l = l[:i]
+			}
+			return head + " in " + strings.TrimPrefix(l, "github.com/skx/evalfilter/v2")
+		}
+	}
+	return head
 }
 
 // confirmDeath replays one case alone, twice; only a reproducible death or
@@ -674,7 +698,7 @@ func confirmDeath(worker, prop, tier string, seed uint64, idx int, env []string,
 			return nil
 		}
 		lastErr = headline(eb.String())
-		stderr = eb.String()
+		stderr = headTail(eb.String(), 4000)
 	}
 	class := prop + "/process-died"
 	sig := lastErr
